@@ -63,6 +63,9 @@ def alphabet(sc):
         'silence': ('wait', 5, None),
         'eof': ('wait', 0, ('eof',)),
         'err': ('wait', 0, ('sockerr',)),
+        'other': ('wait', 0, ('othererr',)),          # recv raises something that is not a socket error
+        'selerr': ('selerr',),                        # the selector itself fails
+        'oversize': ('wait', 0, ('data', b'X' * 16400)),     # more than the header limit without a terminator
     }
 
 
@@ -72,6 +75,7 @@ REACTION_PLANS = {
     'close-early': lambda k: {1: [('close', 1000, ('b', b'bye'))]},
     'close-at-ready': lambda k: {2: [('close', 1000, ('b', b'bye')), ('send_text', ('s', [120]), True)]},
     'close-late': lambda k: {4: [('close', 1001, ('b', b''))], 5: [('send_binary', ('b', b'z'), True)]},
+    'session-close-at-ready': lambda k: {2: [('session_close',)], 3: [('send_text', ('s', [104]), True)]},
 }
 
 
@@ -79,7 +83,7 @@ def explore(res, tier, seed, model_ok=True):
     rng = random.Random(seed)
     depth = 3 if tier == 'quick' else 4
     nrand = 400 if tier == 'quick' else 6000
-    res.rule = ('exhaustive: every sequence of <= %d server steps over a 12-symbol alphabet (good/rejecting/garbage reply, text, fragment, continuation, ping, close, invalid frame, silence, EOF, recv error) '
+    res.rule = ('exhaustive: every sequence of <= %d server steps over a 15-symbol alphabet (good/rejecting/garbage/oversize reply, text, fragment, continuation, ping, close, invalid frame, silence, EOF, recv socket error, recv other exception, selector error) '
                 'x %d application reaction plans, always followed by EOF; random: %d histories of up to 10 steps with timers, write failures, connect failures, selector errors and random reactions; '
                 'timeouts must end the iteration also when the Close/ping write fails and when the server trickles a frame that never completes; a write fault at each write index x each kind of call at Ready x with/without negotiated compression (a blocked call is detected by a wall-clock deadline: HANG); '
                 'judged by a monitor automaton written from the property; non-trivial = history reaching Ready or containing a fault; distinct by operation line') % (depth, len(REACTION_PLANS), nrand)
@@ -89,7 +93,7 @@ def explore(res, tier, seed, model_ok=True):
     syms = sorted(alpha)
     for d in range(1, depth + 1):
         for seq in itertools.product(syms, repeat=d):
-            if seq[0] not in ('good', 'reject', 'garbage', 'eof', 'err', 'silence'):
+            if seq[0] not in ('good', 'reject', 'garbage', 'eof', 'err', 'silence', 'other', 'selerr', 'oversize'):
                 continue        # frames before any reply are covered by 'garbage'
             for plan in REACTION_PLANS:
                 env = [alpha[s] for s in seq] + [('wait', 1, ('eof',))]
